@@ -8,7 +8,11 @@ use std::cell::RefCell;
 use std::sync::atomic::{AtomicBool, Ordering};
 
 pub const FRONT: usize = 16;
-pub const TAIL: usize = 32;
+/// Tail canary band behind a *destination* (wide, so that an overrun by the
+/// code under test lands in the band - and is reported - instead of in the
+/// allocator's metadata); sources get a short band.
+pub const TAIL: usize = 512;
+pub const SRC_TAIL: usize = 32;
 const CANARY: u8 = 0xC7;
 const CANARY16: u16 = 0xC7C7;
 
@@ -38,13 +42,14 @@ impl Guard8 {
     /// visible and deterministic: continuation bytes (0xA0), which complete an
     /// unfinished UTF-8 / multi-byte sequence instead of being rejected.
     pub fn from(src: &[u8], off: usize) -> Guard8 {
-        let mut g = Guard8::new(src.len(), off);
-        g.slice_mut().copy_from_slice(src);
-        let end = g.start + g.len;
-        for b in g.buf[end..].iter_mut() {
+        let tail = if tail_canary() { SRC_TAIL } else { 0 };
+        let start = FRONT + off;
+        let mut buf = vec![CANARY; start + src.len() + tail];
+        buf[start..start + src.len()].copy_from_slice(src);
+        for b in buf[start + src.len()..].iter_mut() {
             *b = 0xA0;
         }
-        g
+        Guard8 { buf, start, len: src.len() }
     }
     #[inline]
     pub fn slice(&self) -> &[u8] {
@@ -77,13 +82,14 @@ impl Guard16 {
     /// A *source* buffer; low surrogates behind it (they would complete a
     /// pair that an over-reading converter looks for).
     pub fn from(src: &[u16], off: usize) -> Guard16 {
-        let mut g = Guard16::new(src.len(), off);
-        g.slice_mut().copy_from_slice(src);
-        let end = g.start + g.len;
-        for b in g.buf[end..].iter_mut() {
+        let tail = if tail_canary() { SRC_TAIL } else { 0 };
+        let start = FRONT + off;
+        let mut buf = vec![CANARY16; start + src.len() + tail];
+        buf[start..start + src.len()].copy_from_slice(src);
+        for b in buf[start + src.len()..].iter_mut() {
             *b = 0xDCA0;
         }
-        g
+        Guard16 { buf, start, len: src.len() }
     }
     #[inline]
     pub fn slice(&self) -> &[u16] {
